@@ -59,6 +59,70 @@ def run_tasks(specs, procs=None):
     return out
 
 
+def _learned_union(results):
+    loops, promote = {}, set()
+    for r in results:
+        L = r.get("learned") or {"loops": {}, "promote": []}
+        for k, d in L["loops"].items():
+            e = loops.setdefault(k, {"arrays": set(), "fields": set()})
+            e["arrays"].update(d["arrays"])
+            e["fields"].update(tuple(x) for x in d["fields"])
+        promote.update(L["promote"])
+    return {"loops": {k: {"arrays": sorted(d["arrays"]), "fields": sorted(list(x) for x in d["fields"])} for k, d in sorted(loops.items())}, "promote": sorted(promote)}
+
+
+def _learned_norm(L):
+    L = L or {"loops": {}, "promote": []}
+    return (tuple(sorted((k, tuple(d["arrays"]), tuple(tuple(x) for x in d["fields"])) for k, d in L["loops"].items() if d["arrays"] or d["fields"])), tuple(L["promote"]))
+
+
+def run_sharded(specs, hint_name, procs=16):
+    """Tasks that explore disjoint parts of the path space of ONE function (Task(shard=...)).  What the executor learns about a loop while
+    exploring (which arrays and fields its body writes, which lists turn into heap lists) decides what is havocked at that loop, and a
+    shard that never executes the writing branch would havoc too little.  So: run all shards, take the union of what they learnt, and
+    re-run every shard that knew less, until all shards have run with the same knowledge and none has learnt anything new.  Since the
+    shards together cover every path, that knowledge is then complete.  A hint from cache/learned/ (never trusted: it only seeds the
+    first round) usually makes one round enough."""
+    hint_path = os.path.join(ROOT, "cache", "learned", hint_name + ".json")
+    preload = None
+    if os.path.exists(hint_path):
+        try:
+            preload = json.load(open(hint_path))
+        except Exception:  # noqa
+            preload = None
+    todo = list(range(len(specs)))
+    results = [None] * len(specs)
+    converged = False
+    for rnd in range(6):
+        batch = [(m, f, dict(kw, preload=preload)) for (m, f, kw) in (specs[i] for i in todo)]
+        if os.environ.get("VERIF_SERIAL"):
+            res = [_run_task(b) for b in batch]
+        else:
+            ctx = mp.get_context("fork")
+            with ctx.Pool(min(procs, len(batch))) as pool:
+                res = pool.map(_run_task, batch, chunksize=1)
+        for i, r in zip(todo, res):
+            results[i] = r
+        union = _learned_union([x for r in results if r for x in r])
+        target = _learned_norm(union)
+        todo = [i for i, r in enumerate(results) if any(_learned_norm(x.get("learned")) != target for x in r)]
+        preload = union
+        if not todo:
+            converged = True
+            break
+    out = []
+    for r in results:
+        out.extend(r)
+    if not converged:
+        out.append({"task": hint_name + "/shards", "paths": 0, "restarts": 0, "wall_s": 0.0, "functions": {}, "assumptions": [], "crash": None,
+                    "obligations": [{"name": hint_name + "/shards-agree-on-loop-knowledge", "status": "undecided", "time_s": 0.0, "path": None, "kind": "shards",
+                                     "detail": "the shards did not converge on a common havoc set"}]})
+    if os.environ.get("VERIF_WRITE_BASELINE"):
+        os.makedirs(os.path.dirname(hint_path), exist_ok=True)
+        json.dump(preload, open(hint_path, "w"), indent=1)
+    return out
+
+
 def ob_key(name):
     """obligation identity used for the committed baseline: the name without anything path-specific."""
     return name
